@@ -506,6 +506,43 @@ func c16Isolation(c *Ctx, r *Report) {
 			}
 		}
 	}
+	// ... nor anything the cleanup calls: every index/slice/assertion obligation reachable from a
+	// deferred cleanup closure of a goroutine (helpers of the module inlined) holds
+	for _, fn := range c.allFuncs("server") {
+		if fn.Parent() == nil {
+			continue
+		}
+		isCleanup := false
+		for _, pb := range fn.Parent().Blocks {
+			for _, pi := range pb.Instrs {
+				if d, ok := pi.(*ssa.Defer); ok {
+					if mc, ok := d.Common().Value.(*ssa.MakeClosure); ok && mc.Fn == ssa.Value(fn) {
+						isCleanup = true
+					}
+				}
+			}
+		}
+		recovers := false
+		for _, b := range fn.Blocks {
+			for _, in := range b.Instrs {
+				if call, ok := in.(*ssa.Call); ok {
+					if bi, ok := call.Common().Value.(*ssa.Builtin); ok && bi.Name() == "recover" {
+						recovers = true
+					}
+				}
+			}
+		}
+		if !isCleanup || !recovers {
+			continue
+		}
+		an, _ := analyse(c, fn)
+		for _, o := range an.obligs {
+			if !o.ok && o.fn != fn {
+				r.instance("R16.5", 1)
+				r.fail("R16.5", fnID(fn), "the recovery path can itself panic ("+o.desc+" in "+o.chain+"): the second panic is not recovered and terminates the process", c.pos(o.pos), o.facts, "panic-in-recovery:"+o.kind)
+			}
+		}
+	}
 	// the recover path must not itself panic: unchecked type assertions in deferred closures
 	for _, fn := range c.allFuncs("server") {
 		if fn.Parent() == nil {
